@@ -247,3 +247,67 @@ Proof.
     vm_compute in Hs. injection Hs as <-. split; [|reflexivity].
     intros k v I. vm_compute in I. destruct I as [E|[E|[]]]; injection E as <- <-; split; vm_compute; reflexivity.
 Qed.
+
+(* ------------------------------------------------------------------ every construction history *)
+(* With the refinement theorem of C02 (TableProofs.T_refines_map: every history of set / rem / get /
+   mem / resize / copy from the empty table keeps the invariant and holds exactly the bindings of the
+   finite map spec_run ops []) the hypothesis `tinv` disappears. *)
+Section Histories.
+  Variables (m r seed : N).
+
+  Lemma T_run_tinv (hash : Z -> N) (ops : list (op Z value)) : tinv Z value hash (T_run Z value Z.eqb hash ops).
+  Proof. destruct (T_refines_map Z value Z.eqb hash Z.eqb_eq ops (TSelfCopy Z value)) as [[Hp _] _]. exact Hp. Qed.
+
+  (* copy(t) after any history *)
+  Theorem int_table_history_copy (hash : Z -> N) (ops : list (op Z value)) :
+    let t := T_run Z value Z.eqb hash ops in
+    entries_wf t ->
+    exists t', t_assign_from Z value Z.eqb hash table_swap table_primes table_load_num table_load_den t = Some t' /\
+      v_cmp true (VMap KTable (emb t')) (VMap KTable (emb t)) = Some 0%Z /\
+      v_cmp true (VMap KTable (emb t)) (VMap KTable (emb t')) = Some 0%Z /\
+      v_hash m r seed true (VMap KTable (emb t')) = v_hash m r seed true (VMap KTable (emb t)) /\
+      length (emb t') = length (emb t).
+  Proof. intros t W. apply int_table_copy_eq_hash; [apply T_run_tinv|exact W]. Qed.
+
+  (* two histories — different insertion orders, removals, reserves, copies, even different hash
+     functions placing the keys — that leave the same bindings leave tables that are eq in both
+     directions and hash the same *)
+  Theorem int_table_histories_eq_hash (hash1 hash2 : Z -> N) (ops1 ops2 : list (op Z value)) :
+    let t1 := T_run Z value Z.eqb hash1 ops1 in
+    let t2 := T_run Z value Z.eqb hash2 ops2 in
+    Permutation (spec_run Z value Z.eqb ops1 []) (spec_run Z value Z.eqb ops2 []) ->
+    entries_wf t1 ->
+    v_cmp true (VMap KTable (emb t1)) (VMap KTable (emb t2)) = Some 0%Z /\
+    v_cmp true (VMap KTable (emb t2)) (VMap KTable (emb t1)) = Some 0%Z /\
+    v_hash m r seed true (VMap KTable (emb t1)) = v_hash m r seed true (VMap KTable (emb t2)).
+  Proof.
+    intros t1 t2 P W.
+    destruct (T_len_iter Z value Z.eqb hash1 Z.eqb_eq ops1) as [_ [_ [P1 _]]].
+    destruct (T_len_iter Z value Z.eqb hash2 Z.eqb_eq ops2) as [_ [_ [P2 _]]].
+    fold t1 in P1. fold t2 in P2.
+    assert (Pt : Permutation (t_iter Z value t1) (t_iter Z value t2)).
+    { eapply perm_trans; [exact P1|]. eapply perm_trans; [exact P|]. apply Permutation_sym. exact P2. }
+    assert (Pe : Permutation (emb t1) (emb t2)) by (unfold emb; apply Permutation_map; exact Pt).
+    pose proof (emb_wf hash1 t1 (T_run_tinv hash1 ops1) W) as W1.
+    destruct (map_perm_eq m r seed true KTable KTable (emb t1) (emb t2) eq_refl W1 Pe) as [W2 [C1 H1]].
+    destruct (map_perm_eq m r seed true KTable KTable (emb t2) (emb t1) eq_refl W2 (Permutation_sym Pe)) as [_ [C2 _]].
+    auto.
+  Qed.
+End Histories.
+
+(* non-vacuity: two histories of different shape with the same final bindings *)
+Definition hist1 : list (op Z value) :=
+  [TSet Z value 5%Z (VStr [65]%N); TSet Z value 10%Z (VFloat 0); TSet Z value 0%Z (VInt 3)].
+Definition hist2 : list (op Z value) :=
+  [TSet Z value 0%Z (VInt 3); TSet Z value 7%Z (VInt 1); TResize Z value 50; TSet Z value 10%Z (VFloat 0);
+   TRem Z value 7%Z; TSet Z value 5%Z (VInt 9); TSelfCopy Z value; TSet Z value 5%Z (VStr [65]%N)].
+Lemma histories_nonvacuous :
+  Permutation (spec_run Z value Z.eqb hist1 []) (spec_run Z value Z.eqb hist2 []) /\
+  entries_wf (T_run Z value Z.eqb zt_hash hist1) /\
+  t_iter Z value (T_run Z value Z.eqb zt_hash hist1) <> t_iter Z value (T_run Z value Z.eqb zt_hash hist2).
+Proof.
+  split; [|split].
+  - vm_compute. match goal with |- Permutation ?l _ => exact (Permutation_rev l) end.
+  - intros k v I. vm_compute in I. destruct I as [E|[E|[E|[]]]]; injection E as <- <-; split; vm_compute; reflexivity.
+  - vm_compute. discriminate.
+Qed.
